@@ -176,6 +176,19 @@ def holds(atoms, want):
     return False
 
 
+def holds_exact(atoms, want):
+    """The atom itself (or its mirror image) is among the facts - no
+    implication: used where a *stronger* guard also breaks the property."""
+    if atoms is None:
+        return True
+    op, a, b = want
+    for h in atoms:
+        for ho, ha, hb in (h, (MIRROR[h[0]], h[2], h[1])):
+            if ho == op and _pat_match(a, ha) and _pat_match(b, hb):
+                return True
+    return False
+
+
 def holds_all(atoms, wants):
     return all(holds(atoms, w) for w in wants)
 
@@ -600,6 +613,8 @@ def eval_sign(t, a_key, b_key, ordering):
         return eval_sign(t["a"] if eval_sign(t["c"], a_key, b_key, ordering) else t["b"], a_key, b_key, ordering)
     if k == "un" and t["op"] == "-":
         return -eval_sign(t["x"], a_key, b_key, ordering)
+    if k == "un" and t["op"] == "+":
+        return eval_sign(t["x"], a_key, b_key, ordering)
     if k == "un" and t["op"] == "!":
         return 0 if eval_sign(t["x"], a_key, b_key, ordering) else 1
     if k == "bin":
@@ -656,3 +671,100 @@ def _canon(a):
     if (y, x) < (x, y) and _num(y) is None or (_num(x) is not None and _num(y) is None):
         return (MIRROR[op], y, x)
     return a
+
+
+def cfg_sign_triple(fn, a_key, b_key, tie_vars=()):
+    """T8 for comparator *functions*: walks the CFG under each ordering of the
+    two operands.  Branches that compare the operands are decided by the
+    ordering; locals hold integer constants (a local assigned from a call or
+    anything else unknown is taken as 0 if listed in tie_vars: "the primary
+    comparison tied").  Any other construct raises Unsupported."""
+    def run(ordering):
+        results = set()
+        seen = set()
+        stack = [(fn.entry, ())]
+        steps = 0
+        while stack:
+            bid, envt = stack.pop()
+            steps += 1
+            if steps > 2000:
+                raise Unsupported("comparator CFG walk does not terminate (loop?) in %s" % fn.name)
+            if (bid, envt) in seen:
+                continue
+            seen.add((bid, envt))
+            env = dict(envt)
+            blk = fn.blocks[bid]
+            ended = False
+            for e in blk.ev:
+                k = e["e"]
+                if k in ("asg", "decl"):
+                    if k == "asg":
+                        l = strip_casts(e["lhs"])
+                        if not (isinstance(l, dict) and l.get("k") == "var"):
+                            continue
+                        name, rhs = l["n"], e["rhs"]
+                        if e["op"] != "=":
+                            raise Unsupported("compound assignment to %s" % name)
+                    else:
+                        if "init" not in e:
+                            continue
+                        name, rhs = e["n"], e["init"]
+                    try:
+                        env[name] = _ev(rhs, env, a_key, b_key, ordering)
+                    except Unsupported:
+                        if name in tie_vars and calls_in(rhs):
+                            env[name] = 0      # the primary comparison (a call) is assumed to tie
+                        elif name in tie_vars:
+                            raise
+                        else:
+                            env.pop(name, None)
+                elif k == "ret":
+                    if e.get("x") is None:
+                        raise Unsupported("void return")
+                    results.add(_ev(e["x"], env, a_key, b_key, ordering))
+                    ended = True
+                    break
+            if ended or blk.noret:
+                continue
+            lits = fn.edge_literals(bid)
+            if len(lits) == 1 or all(l is None for s, l in lits):
+                for s, l in lits:
+                    stack.append((s, tuple(sorted(env.items()))))
+                continue
+            cond = lits[0][1][0] if lits[0][1] and lits[0][1][0] not in ("case", "default") else None
+            if cond is None:
+                raise Unsupported("switch in comparator %s" % fn.name)
+            try:
+                v = _ev(cond, env, a_key, b_key, ordering)
+            except Unsupported:
+                v = None      # not about the operands: both outcomes are walked and must agree
+            for s, l in lits:
+                if l is not None and (v is None or bool(v) == l[1]):
+                    stack.append((s, tuple(sorted(env.items()))))
+        if len(results) != 1:
+            raise Unsupported("comparator %s returns %s under %s" % (fn.name, sorted(results), ordering))
+        return results.pop()
+    sg = lambda v: (v > 0) - (v < 0)
+    return tuple(sg(run(o)) for o in ("<", "=", ">"))
+
+
+def _ev(t, env, a_key, b_key, ordering):
+    t = strip_casts(t)
+    if isinstance(t, dict) and t.get("k") == "var" and t["n"] in env and key(t) not in (a_key, b_key):
+        return env[t["n"]]
+    if isinstance(t, dict) and t.get("k") in ("bin", "un", "cond"):
+        # substitute known locals, then evaluate
+        def sub(n):
+            n2 = strip_casts(n)
+            if isinstance(n2, dict) and n2.get("k") == "var" and n2["n"] in env and key(n2) not in (a_key, b_key):
+                return {"k": "int", "v": str(env[n2["n"]])}
+            if isinstance(n2, dict):
+                o = dict(n2)
+                o.pop("cv", None)
+                for kk in ("l", "r", "x", "c", "a", "b"):
+                    if isinstance(n2.get(kk), dict):
+                        o[kk] = sub(n2[kk])
+                return o
+            return n2
+        return eval_sign(sub(t), a_key, b_key, ordering)
+    return eval_sign(t, a_key, b_key, ordering)
